@@ -690,7 +690,53 @@ func (ge *GuardEngine) guardsRec(fn *ssa.Function, env *Env, chain []string, ctx
 	fi := ge.info(fn)
 	chain = append(append([]string{}, chain...), FuncName(fn))
 	var out []Guard
+	expandWhenTrue := false // polarity of the guard being expanded: it rejects when the tested call returns true
 	expand := func(call *ssa.Call, at *ssa.BasicBlock, extraCtx []string) {
+		// slices.ContainsFunc(xs, pred) / slices.IndexFunc(xs, pred): the predicate is evaluated on every element
+		if f := call.Call.StaticCallee(); f != nil && (strings.HasPrefix(f.String(), "slices.ContainsFunc") || strings.HasPrefix(f.String(), "slices.IndexFunc")) && len(call.Call.Args) == 2 {
+			var pred *ssa.Function
+			switch v := call.Call.Args[1].(type) {
+			case *ssa.MakeClosure:
+				pred, _ = v.Fn.(*ssa.Function)
+			case *ssa.Function:
+				pred = v
+			}
+			if pred != nil && len(pred.Params) == 1 {
+				ne := &Env{params: map[*ssa.Parameter]string{}, freevars: map[*ssa.FreeVar]string{}}
+				if env != nil {
+					for k, v := range env.params {
+						ne.params[k] = v
+					}
+					for k, v := range env.freevars {
+						ne.freevars[k] = v
+					}
+				}
+				ne.params[pred.Params[0]] = ge.pv.Atom(call.Call.Args[0], env) + "[*]"
+				if mc, ok := call.Call.Args[1].(*ssa.MakeClosure); ok {
+					for j, fv := range pred.FreeVars {
+						if j < len(mc.Bindings) {
+							if _, isAlloc := mc.Bindings[j].(*ssa.Alloc); !isAlloc {
+								ne.freevars[fv] = ge.pv.Atom(mc.Bindings[j], env)
+							}
+						}
+					}
+				}
+				cctx := append(append([]string{}, ctx...), ge.condCtx(fi, at, env)...)
+				csites := append(append([]Site{}, sites...), Site{fn, at, env})
+				for _, g := range ge.guardsRec(pred, ne, chain, cctx, csites, depth+1, seen) {
+					if expandWhenTrue && g.Ret {
+						// the caller rejects when SOME element satisfies the predicate: every element is tested and
+						// a true predicate rejects, exactly like "for … { if pred { reject } }"
+						g.Op = negOp[g.Op]
+						g.Weak = false
+					} else {
+						g.Weak = true // an existence test: one element's comparison is a disjunct of the condition
+					}
+					out = append(out, g)
+				}
+			}
+			return
+		}
 		for _, callee := range ge.calleesOf(&call.Call) {
 			if callee == nil || !ge.p.InModule(callee) {
 				continue
@@ -741,7 +787,9 @@ func (ge *GuardEngine) guardsRec(fn *ssa.Function, env *Env, chain []string, ctx
 					call = nil
 				}
 				if call != nil {
+					expandWhenTrue = g.Op == "true"
 					expand(call, b, nil)
+					expandWhenTrue = false
 				}
 			}
 		}
@@ -774,7 +822,9 @@ func (ge *GuardEngine) guardsRec(fn *ssa.Function, env *Env, chain []string, ctx
 			g.Sites = append(append([]Site{}, sites...), Site{fn, at, env})
 			out = append(out, g)
 			if call := propagatingCall(v); call != nil {
+				expandWhenTrue = g.Op == "true"
 				expand(call, at, nil)
+				expandWhenTrue = false
 			}
 		}
 		for _, b := range fn.Blocks {
